@@ -35,7 +35,7 @@ type config struct {
 var (
 	quickAlpha = []uint{0, 1, 63, 64, 65, 127, 128}
 	fullAlpha  = []uint{0, 1, 63, 64, 65, 127, 128, 129, 191, 192}
-	subAlpha   = []uint{0, 63, 64, 127, 128, 191, 192} // side B of the thorough 4-word systems
+	subAlpha   = []uint{0, 63, 64, 128, 192} // side B of the thorough 4-word systems
 	grows3     = []uint{0, 63, 64, 127, 128}
 	grows4     = []uint{0, 63, 64, 127, 128, 191, 192}
 	// no constructor exists; differing initial capacities are produced with Grow so that
@@ -62,8 +62,8 @@ func configs(thorough bool) []*config {
 		// so either side can be the shorter / the poorer one)
 		cs[2] = &config{name: "dsz.Bits", kind: kDsz, alpha: [2][]uint{fullAlpha, nil}, grows: grows4, starts: starts1}
 		cs = append(cs,
-			&config{name: "setz.Bits/4words-A10xB7", kind: kBits, alpha: [2][]uint{fullAlpha, subAlpha}, grows: grows4, starts: starts2, big: true},
-			&config{name: "setz.Bitmap/4words-A10xB7", kind: kBitmap, alpha: [2][]uint{fullAlpha, subAlpha}, grows: grows4, starts: starts2, big: true})
+			&config{name: "setz.Bits/4words-A10xB5", kind: kBits, alpha: [2][]uint{fullAlpha, subAlpha}, grows: grows4, starts: starts2, big: true},
+			&config{name: "setz.Bitmap/4words-A10xB5", kind: kBitmap, alpha: [2][]uint{fullAlpha, subAlpha}, grows: grows4, starts: starts2, big: true})
 		maxWords = 4
 		all = fullAlpha
 	}
@@ -580,6 +580,9 @@ func main() {
 	engine := map[string]string{}
 	for _, c := range cs {
 		c := c
+		if only := os.Getenv("C16_ONLY"); only != "" && only != c.name {
+			continue
+		}
 		sys := space.System{
 			Name:   c.name,
 			Starts: len(c.starts),
